@@ -163,7 +163,7 @@ fn optimize_function_by_tailrec_rewrite_aux(
     Expression::StringName(_) => return (function, false),
   };
   let Function { name, parameters, type_, body, return_value } = function;
-  let RewriteResult { stmts, args } = match try_rewrite_stmts_for_tailrec_without_using_return_value(
+  let RewriteResult { mut stmts, mut args } = match try_rewrite_stmts_for_tailrec_without_using_return_value(
     body,
     &name,
     &type_.argument_types,
@@ -173,6 +173,22 @@ fn optimize_function_by_tailrec_rewrite_aux(
     Ok(result) => result,
     Err(body) => return (Function { name, parameters, type_, body, return_value }, false),
   };
+  // The loop variables are assigned one after another at the end of each iteration. If an
+  // argument of the tail call reads a parameter that belongs to another position (e.g.
+  // `f(b, a, n - 1)`), assigning in place would read an already overwritten loop variable.
+  // Snapshot all new values into fresh temporaries first, so that the update is parallel.
+  let reads_other_parameter = args.iter().enumerate().any(|(i, arg)| {
+    arg.as_variable().is_some_and(|v| {
+      parameters.iter().enumerate().any(|(j, p)| i != j && *p == v.name)
+    })
+  });
+  if reads_other_parameter {
+    for (arg, t) in args.iter_mut().zip(type_.argument_types.iter()) {
+      let temp = heap.alloc_temp_str();
+      stmts.push(Statement::Cast { name: temp, type_: *t, assigned_expression: *arg });
+      *arg = Expression::var_name(temp, *t);
+    }
+  }
   let while_loop = Statement::While {
     loop_variables: parameters
       .iter()
